@@ -208,15 +208,21 @@ def run_C10(tier, seed, t0):
     specs = [('harness.data', 'directive_task', (n, s, v, bits)) for n, s, v in directive_programs()]
     specs += [('harness.data', 'include_bytes_task', (k,)) for k in range(3)]
     specs += [('harness.data', 'include_bytes_multi_task', ())]
+    from .strings import string_specs, SHAPES_QUICK, SHAPES_THOROUGH
+    specs += string_specs(tier)
     specs += [('harness.strings', 'string_task', (tier,))]
     res = pmap(specs)
+    shapes = SHAPES_THOROUGH if tier == 'thorough' else SHAPES_QUICK
     return finish('C10', tier, seed, res, t0,
                   bounds=dict(values='signed %d-bit through db/dh/dw/dd, pack [<>][bBhHiIlLqQ], bytes/shorts/ints/longs/longlongs' % bits,
                               include_bytes='file present in any subset of {source dir, -i dir, working dir} (symbolic bits), working directory one of 4, source as path or text',
-                              string='see explanation: escape/UTF-8 processing is decided over symbolic code points of strings up to 3 characters'),
-                  stubs=STUBS_ASM + ['virtual file system (os.path.exists/getsize/abspath/getcwd, open) with symbolic existence bits'],
-                  assumptions=STUBS_ASM,
-                  outside=['string literals longer than the bound', 'real OS semantics (symlinks, permissions)'])
+                              string='text shapes %s: every unmarked position is a symbolic code point 0..0x10FFFF (no surrogates, no line-break characters), the digit positions of the long escapes are symbolic ASCII; real lex_tokens/parse_item/String.size/resolve_strings run on them, compared with a character-level reference (escape table of the Python language reference + RFC 3629)' % ', '.join('%s=%s' % (k, ''.join(c if isinstance(c, str) and len(c) == 1 else ('?' if c is None else 'a') for c in v[1])) for k, v in shapes.items())),
+                  stubs=STUBS_ASM + ['virtual file system (os.path.exists/getsize/abspath/getcwd, open) with symbolic existence bits',
+                                     'str.encode / bytes.decode on symbolic text: Python models of the latin-1, ascii, utf-8 and unicode_escape codecs and the strict / backslashreplace / ignore / replace handlers (symx/symstr.py); every path witness is replayed through the real codecs',
+                                     're on symbolic text: backtracking matcher over re._parser parse trees asking the solver about character classes'],
+                  assumptions=STUBS_ASM + ['the text after "string " contains no \\N{name} escape (needs the Unicode name database)',
+                                           'a malformed escape (truncated \\x \\u \\U, trailing backslash, value above 0x10FFFF, a surrogate) is outside the claim: nothing is documented for it'],
+                  outside=['string literals longer than / shaped differently from the listed shapes', '\\N{name} escapes', 'malformed escapes', 'real OS semantics (symlinks, permissions)'])
 
 
 def run_C11(tier, seed, t0):
